@@ -9,10 +9,11 @@ writing session is open.  After every operation every storage of the population 
 completely and compared with its model; source fields and fields read back earlier are
 compared with the harness' own copies (so writes that leak in either direction are seen).
 The fields of one history have different data types (int64, float64, complex128): a frame
-keeps the dtype and the values it had when it was appended (``storage.data[i]`` is compared
-exactly), a field read back is the frame written into a copy of the template set by the last
-successful ``start_writing`` (class, grid, labels and dtype of that template), with values
-equal to the frame whenever the frame's dtype casts safely to the template's.
+keeps the values (in the model also the dtype) it had when it was appended, whatever the
+storage held before (``storage.data[i]`` is compared by value); a field read back is the
+frame written into a copy of the template set by the last successful ``start_writing``
+(class, grid, labels and dtype of that template), with values equal to the frame whenever the
+frame's dtype casts safely to the template's.
 
 ``tracker_driven_storage``: one or two short ``solve`` calls (``backend='numpy'``) writing
 through ``storage.tracker(...)`` into one storage; a callback tracker with the same
@@ -47,8 +48,9 @@ ASSUMPTIONS = [
     "the fields of one history have different dtypes (int64 for single fields, float64, "
     "complex128; small multiples of 1/2, so int -> float -> complex casts are exact). A stored frame "
     "keeps the values it had when appended, whatever was stored before (storage.data[i] is compared "
-    "by value in every state; the dtype in which a frame is kept is not asserted); a field read (storage[i], slices, iteration, items(), "
-    "view_field, and therefore copy/apply) is the frame assigned into a copy of the template of "
+    "by value in every state; the dtype in which a frame is kept is not asserted); a field read "
+    "(storage[i], slices, iteration, items(), view_field, and therefore copy/apply) is the frame "
+    "assigned into a copy of the template of "
     "the last successful start_writing, so it has that template's dtype. On the unchanged tree "
     "this round-trips exactly whenever the frame's dtype casts safely to the template's dtype "
     "(same dtype; narrower field appended in a wider session; later session - after clear(), "
@@ -77,8 +79,8 @@ ASSUMPTIONS = [
     "storage, the property says reads never do - neither is asserted)",
     "extract_time_range results are documented as possible views: storages related by it are "
     "never written to in place (storage.data[k][...] = x)",
-    "labels/class of all frames are those of the current template (the storage keeps one "
-    "template; start_writing replaces it)",
+    "labels/class/dtype of all fields read are those of the current template (the storage keeps "
+    "one template; start_writing replaces it)",
 ]
 
 CLS = {"scalar": "ScalarField", "vector": "VectorField", "tensor": "Tensor2Field",
